@@ -88,7 +88,8 @@ class EAM_Potential_Builder(object):
 
     # Create the zero functions for null_embed_species.
     null = zero()
-    for s in null_embed_species:
+    # sorted: species order reaches the output file and must not depend on set iteration (hash seed) order
+    for s in sorted(null_embed_species):
       embed_dict[s] = null
 
 
@@ -101,7 +102,7 @@ class EAM_Potential_Builder(object):
     all_species = embed_species | density_species
 
     null = zero()
-    for s in all_species:
+    for s in sorted(all_species):
       other_dict = density_dict.setdefault(s, null)
 
 
@@ -222,7 +223,7 @@ class EAM_Potential_Builder_FS(EAM_Potential_Builder):
     all_species = embed_species | density_species
 
     null = zero()
-    for s in all_species:
+    for s in sorted(all_species):
       other_dict = density_dict.setdefault(s, {})
-      for o in all_species:
+      for o in sorted(all_species):
         other_dict.setdefault(o, null)
